@@ -138,17 +138,19 @@ def bOpenFile (c : Ctx) (pc : Nat) : B :=
   let m := { m with recPos := m.fpos, lenSoFar := 0 }
   bNewRecord m pc
 
+/-- the three-way buffer/flush/direct-write decision of `WriteBytes` -/
+def bBuffer (m : B) (bs : List Byte) : B :=
+  if m.buf.length + bs.length < codeBufferSize then { m with buf := m.buf ++ bs }
+  else
+    let mf := flushBuffer m
+    if bs.length < codeBufferSize then { mf with buf := bs } else fwrite mf bs
+
 def bWriteBytes (m : B) (bs : List Byte) : B :=
   if bs.length = 0 then m else
   let ergLen := bs.length % 65536            -- `Word ErgLen = CodeLen * Granularity()`
-  let bs' := bs.take ergLen
-  let m := if m.lenSoFar + ergLen > 0xffff then bNewRecord m m.pc else m
-  let m :=
-    if m.buf.length + ergLen < codeBufferSize then { m with buf := m.buf ++ bs' }
-    else
-      let m := flushBuffer m
-      if ergLen < codeBufferSize then { m with buf := bs' } else fwrite m bs'
-  { m with lenSoFar := (m.lenSoFar + ergLen) % 65536 }
+  let m1 := if m.lenSoFar + ergLen > 0xffff then bNewRecord m m.pc else m
+  let m2 := bBuffer m1 (bs.take ergLen)
+  { m2 with lenSoFar := (m2.lenSoFar + ergLen) % 65536 }
 
 def bstep (m : B) : Ev → B
   | .emit bs =>
